@@ -301,6 +301,7 @@ class Notes:
         else:
             fail(r, ctx, bf, call.node, f"group handed to the note builder must be the slice datas[left:j+1]; found "
                                         f"{show(sl)[:200] if sl else None}")
+        self._consumer_lists(rc, bf, call)
         # accumulator
         ex = live_exits(s)
         if len(ex) != 1 or ex[0].kind != "ret" or ex[0].loops:
@@ -345,6 +346,22 @@ class Notes:
                 fail(rc, ctx, bf, L1.node, f"{what} cursor must be rebound to component {k} of the builder result (the cursor the "
                                            f"builder derived from its own {what} lookup); found {show(upd)[:200] if upd else None}")
 
+    def _consumer_lists(self, rc: Rule, bf, call) -> None:
+        """The phrase list and the tempo map reach the group consumer as the builder received them: recorded star-power indices
+        refer to the list stored on the track, times to the chart's tempo map (a filtered / sorted / copied list shifts them)."""
+        ctx = self.ctx
+        kw = dict(call.kwargs)
+        ps = bf.params()
+        for p_ in self.f.params():
+            t_ = ctx.ev.types.param_type(self.f, p_)
+            if t_ in (("seq", ("inst", "chartparse.instrument.StarPowerEvent")), ("inst", "chartparse.sync.BPMEvents")):
+                a_ = kw.get(p_)
+                srcs = [q_ for q_ in ps if ctx.ev.types.param_type(bf, q_) == t_]
+                if a_ is None or not srcs or strip(a_) != ("param", srcs[0]):
+                    fail(rc, ctx, bf, call.node, f"the group consumer's `{p_}` must be the builder's own parameter, unchanged; it receives "
+                                                 f"{show(a_)[:140] if a_ else None} -- indices recorded on notes would refer to another list / "
+                                                 f"times to another tempo map than the ones the track and chart expose")
+
     def _groupby_form(self, r: Rule, rc: Rule, bf, s, loop, datas) -> bool:
         """Second verified form of S1:  for _, g in itertools.groupby(datas, key=lambda d: d.tick): consumer(list(g), ...).
         groupby yields maximal runs of equal keys, in order, covering every element once -- the S1 summary by definition.
@@ -367,6 +384,7 @@ class Notes:
             fail(r, ctx, bf, loop.node, f"each group must be handed to NoteEvent.from_parsed_data exactly once, unconditionally; found {len(calls)} call(s)")
             return True
         call = calls[0]
+        self._consumer_lists(rc, bf, call)
         kw = dict(call.kwargs)
         fps = self.f.params()
         g = kw.get(fps[1])
